@@ -227,6 +227,7 @@ func tgRun(lines []string) {
 	}
 	dir := filepath.Join(optScratch, "tgdir")
 	defer os.RemoveAll(dir)
+	caseNo := 0
 	for _, l := range lines {
 		mode, files, ok := decodeCase(strings.Fields(l))
 		if !ok {
@@ -242,6 +243,31 @@ func tgRun(lines []string) {
 			continue
 		}
 		var stdout, stderr bytes.Buffer
+		caseNo++
+		if caseNo%3 == 0 {
+			// through -out, over an existing LONGER file (an earlier generation of a package that had more tests)
+			outFile := filepath.Join(optScratch, "tg-out.txt")
+			stale := strings.Repeat("// left over from an earlier generation\nfunc (suite *GoTestSuite) TestStale() {\n}\nFail Example stale_ok : stale #() ~~> #true := t.\n", 400)
+			if err := os.WriteFile(outFile, []byte(stale), 0644); err != nil {
+				proto.Reply("harness-error %v", err)
+				continue
+			}
+			cmd := exec.Command(bin, "-"+mode, "-out", outFile, dir)
+			cmd.Stdout = &stdout
+			cmd.Stderr = &stderr
+			if err := cmd.Run(); err != nil {
+				proto.Reply("exit %v %s", err, hex.EncodeToString(stderr.Bytes()))
+				continue
+			}
+			got, err := os.ReadFile(outFile)
+			os.Remove(outFile)
+			if err != nil {
+				proto.Reply("harness-error %v", err)
+				continue
+			}
+			proto.Reply("out %s", proto.Hex(append(stdout.Bytes(), got...)))
+			continue
+		}
 		cmd := exec.Command(bin, "-"+mode, dir)
 		cmd.Stdout = &stdout
 		cmd.Stderr = &stderr
